@@ -1330,6 +1330,16 @@ class LogixDriver(CIPDriver):
 
             tag_info = self._get_tag_info(base, attrs)
 
+            if bit is not None:
+                # a bit number addresses one bit of an integer
+                _int_types = ("SINT", "INT", "DINT", "LINT", "USINT", "UINT", "UDINT", "ULINT")
+                if (
+                    tag_info["tag_type"] != "atomic"
+                    or tag_info["data_type_name"] not in _int_types
+                    or bit >= DataTypes[tag_info["data_type_name"]].size * 8
+                ):
+                    raise RequestError(f"Invalid bit number for a {tag_info['data_type_name']}: {bit}")
+
             if tag_info["data_type"] == "DWORD":
                 _tag, idx = util.get_array_index(tag)
                 if idx is not None:
